@@ -4,7 +4,7 @@ from concurrent.futures import ThreadPoolExecutor
 import vlib
 
 
-def record_vm(ck, wd, parts, variant='verif', extra_flags=()):
+def record_vm(ck, wd, parts, variant='verif', extra_flags=(), extra_args=()):
     try:      # with read-back of the branch targets the x86 JIT encoded (needs JitCompilerX86 internals); without it if they moved
         exe = vlib.build_harness('rx_vm', variant=variant, extra=['-fno-access-control', '-DVERIF_JIT_TARGETS'] + list(extra_flags))
     except vlib.Infra:
@@ -13,7 +13,7 @@ def record_vm(ck, wd, parts, variant='verif', extra_flags=()):
 
     def go(part):
         outp = os.path.join(wd, 'vm_%s_%s.ndjson' % (variant, part))
-        rc, out = vlib.sh([exe, '--seed', str(ck.seed), '--tier', ck.tier, '--part', part, '--out', outp], timeout=3000, check=False)
+        rc, out = vlib.sh([exe, '--seed', str(ck.seed), '--tier', ck.tier, '--part', part, '--out', outp] + list(extra_args), timeout=3000, check=False)
         ls = [l for l in open(outp).read().splitlines() if l] if os.path.exists(outp) else []
         if rc != 0:
             ls.append(json.dumps({'e': 'Crash', 'during': 'rx_vm ' + part, 'rc': rc}))
